@@ -2,7 +2,7 @@
 
 # ------------------------------------------------------------------ value <-> octet conversion (Dm14Query)
 
-@unit("j1939.Dm14Query:Dm14Query._values_to_bytes", props=["C17"])
+@unit("j1939.Dm14Query:Dm14Query._values_to_bytes", replay="native", props=["C17"])
 def _(self: "Dm14Query", values: "list(int)"):
     requires(self.object_byte_size == 1 or self.object_byte_size == 2 or self.object_byte_size == 4 or self.object_byte_size == 8,
              forall(lambda i: 0 <= values[i] and values[i] < ite(self.object_byte_size == 1, 256, ite(self.object_byte_size == 2, 65536,
@@ -29,7 +29,7 @@ def _(self: "Dm14Query", values: "list(int)"):
     ensures("C17.values_to_bytes.frame", same_list(values, old(values)))
 
 
-@unit("j1939.Dm14Query:Dm14Query._bytes_to_values", props=["C17"])
+@unit("j1939.Dm14Query:Dm14Query._bytes_to_values", replay="native", props=["C17"])
 def _(self: "Dm14Query", raw_bytes: "octets"):
     requires(self.object_byte_size == 1 or self.object_byte_size == 2 or self.object_byte_size == 4 or self.object_byte_size == 8,
              octets(raw_bytes))
